@@ -4,6 +4,8 @@
   Specification side: Relic.Spec.JarManifest.
 -/
 import Relic.Proofs.Jar
+import Relic.Proofs.JarSections
+import Relic.Proofs.JarRoundtrip
 import Relic.Spec.JarManifest
 namespace Relic.Props.C05
 open Relic Relic.Jar
@@ -183,17 +185,100 @@ set_option maxRecDepth 20000 in
 example : (digestManifest (fun _ => asc "HASH") (asc "SHA-256") (asc "x") false false
     (asc "Manifest-Version: 1.0\r\n\r\nName: a\r\n\r\n")).isOk = true := by decide
 
-/-- full strength, not proved: (a) the division is the *minimal* one (each section extends to the first empty line
-    and no further) for manifests with uniform line ends – for mixed line ends the code prefers the first
-    CR LF CR LF anywhere over an earlier LF LF, which is not what the specification says; (b) `parseSection` of a
-    dumped section gives the attribute map back for every well-formed attribute list, not only line by line. -/
-def jar_sections_first_blank_line_full : Prop :=
-  ∀ (m : Bytes) (secs : List Bytes), (∀ b ∈ m, b ≠ 13) → splitManifest m = (secs, false) →
-    ∀ s ∈ secs, index sepLF s = some (s.length - 2)
+/-- **jar_sections_minimal.**  The division `splitManifest` makes is the minimal one *as the code searches*: when it
+    does not report `malformed`, every section it returns ends at the first separator found in it — its first
+    CR LF CR LF if it holds one (then it ends with it), else its first LF LF (then it ends with that) — and no
+    section lacks a separator.  For every manifest, whatever its line ends. -/
+theorem jar_sections_minimal (m : Bytes) (secs : List Bytes) (h : splitManifest m = (secs, false)) :
+    ∀ s ∈ secs, cut s = (s.length, false) := by
+  intro s hs
+  rw [split_sections_eq_pieces h] at hs
+  obtain ⟨p, hmem, rfl⟩ := List.mem_map.mp hs
+  have hfl : p.2 = false := by
+    unfold splitManifest at h
+    simp only [Prod.mk.injEq] at h
+    have := List.any_eq_false.mp h.2 p hmem
+    simp at this
+    exact this.1
+  exact piecesAux_cut_self m.length m p hmem hfl
 
-def jar_fold_unfold_section_full : Prop :=
-  ∀ (h : Hdr) (first : Bytes), (∀ kv ∈ h, canonKey kv.1 = kv.1 ∧ trimSpace kv.1 = kv.1 ∧ trimSpace kv.2 = kv.2 ∧ kv.1 ≠ [] ∧ kv.2 ≠ [] ∧
-      noEol kv.1 ∧ noEol kv.2 ∧ (58 : UInt8) ∉ kv.1) → (h.map (·.1)).Nodup →
-    ∃ h', parseSection (writeSection h first) = .ok h' ∧ ∀ k, hget h' k = hget h k
+/-- **jar_sections_first_blank_line** (was `jar_sections_first_blank_line_full`).  For a manifest with LF line ends
+    (no CR anywhere) the division is the specification's: each section extends to its first empty line and no
+    further. -/
+theorem jar_sections_first_blank_line (m : Bytes) (secs : List Bytes) (hcr : ∀ b ∈ m, b ≠ 13)
+    (h : splitManifest m = (secs, false)) : ∀ s ∈ secs, index sepLF s = some (s.length - 2) := by
+  intro s hs
+  have hc := jar_sections_minimal m secs h s hs
+  have hsub : ∀ b ∈ s, b ≠ 13 := by
+    intro b hb
+    apply hcr
+    rw [← (jar_manifest_roundtrip m).2 secs h]
+    exact List.mem_flatten.mpr ⟨s, hs, hb⟩
+  have h4 : index sepCRLF s = none := index_none_of_not_mem (c := 13) (by decide) hsub
+  unfold cut at hc
+  rw [h4] at hc
+  cases h2 : index sepLF s with
+  | none => rw [h2] at hc; simp at hc
+  | some i =>
+    rw [h2] at hc
+    simp only [Prod.mk.injEq, and_true] at hc
+    congr 1; omega
+
+/-- the same for CR LF line ends, when no bare LF LF occurs: each section ends with its first CR LF CR LF -/
+theorem jar_sections_first_blank_line_crlf (m : Bytes) (secs : List Bytes) (h : splitManifest m = (secs, false))
+    (s : Bytes) (hs : s ∈ secs) (i : Nat) (hi : index sepCRLF s = some i) : i = s.length - 4 := by
+  have hc := jar_sections_minimal m secs h s hs
+  unfold cut at hc
+  rw [hi] at hc
+  simp only [Prod.mk.injEq, and_true] at hc
+  omega
+
+example : splitManifest (asc "A: b\n\nName: x\n\n") = ([asc "A: b\n\n", asc "Name: x\n\n"], false) ∧
+    index sepLF (asc "A: b\n\n") = some 4 := by decide
+
+/-- **jar_sections_mixed_line_ends.**  What the two theorems above do not cover is a deviation of the code from the
+    specification, not a gap of the proof: with *mixed* line ends the first CR LF CR LF anywhere wins over an
+    earlier LF LF, so the section returned contains an empty line in its middle (here the main section swallows
+    the `Name: x` section; `splitManifest` does not report `malformed`).  Replayed on the real code by
+    `corpus/C05/jar_mixed_line_ends.ops`. -/
+theorem jar_sections_mixed_line_ends :
+    splitManifest (asc "A: b\n\nName: x\r\n\r\n") = ([asc "A: b\n\nName: x\r\n\r\n"], false) ∧
+    index sepLF (asc "A: b\n\nName: x\r\n\r\n") = some 4 ∧
+    (asc "A: b\n\nName: x\r\n\r\n").length - 2 = 15 := by decide
+
+/-- **jar_fold_unfold_section** (was `jar_fold_unfold_section_full`).  `parseSection` of a written section gives
+    the attribute map back: for every map whose names are canonical, trimmed, non-empty, without CR / LF / `:` and
+    whose values are trimmed, non-empty, without CR / LF (what `parseSection` itself produces, except for empty
+    values), and *every* spelling of the attribute to be written first. -/
+theorem jar_fold_unfold_section (h : Hdr) (first : Bytes)
+    (hh : ∀ kv ∈ h, canonKey kv.1 = kv.1 ∧ trimSpace kv.1 = kv.1 ∧ trimSpace kv.2 = kv.2 ∧ kv.1 ≠ [] ∧ kv.2 ≠ [] ∧
+      noEol kv.1 ∧ noEol kv.2 ∧ (58 : UInt8) ∉ kv.1) (hn : (h.map (·.1)).Nodup) :
+    ∃ h', parseSection (writeSection h first) = .ok h' ∧ ∀ k, hget h' k = hget h k := by
+  obtain ⟨h', hp, hl⟩ := parse_writeSection h first
+    (fun kv hkv => by obtain ⟨a, b, c, d, e, f, g, i⟩ := hh kv hkv; exact ⟨a, b, c, d, e, f, g, i⟩) hn
+  exact ⟨h', hp, fun k => by simp [hget, hl]⟩
+
+/-- non-vacuity: a section with a folded value (100 bytes), a `Name` written first, and a second attribute -/
+example : (∀ kv ∈ [(asc "Name", asc "a/b.class"), (asc "Sha-256-Digest", List.replicate 100 65)],
+      canonKey kv.1 = kv.1 ∧ trimSpace kv.1 = kv.1 ∧ trimSpace kv.2 = kv.2 ∧ kv.1 ≠ [] ∧ kv.2 ≠ [] ∧
+      noEol kv.1 ∧ noEol kv.2 ∧ (58 : UInt8) ∉ kv.1) ∧
+    ([(asc "Name", asc "a/b.class"), (asc "Sha-256-Digest", List.replicate 100 65)].map (·.1)).Nodup := by
+  refine ⟨?_, by decide⟩
+  intro kv hkv
+  simp only [List.mem_cons, List.not_mem_nil, or_false] at hkv
+  rcases hkv with rfl | rfl
+  · refine ⟨by decide, by decide, by decide, by decide, by decide, ?_, ?_, by decide⟩ <;> (intro b hb; revert b; decide)
+  · refine ⟨by decide, by decide, ?_, by decide, by decide, ?_, ?_, by decide⟩
+    · set_option maxRecDepth 100000 in decide
+    · intro b hb; revert b; decide
+    · intro b hb
+      have : b = 65 := List.eq_of_mem_replicate hb
+      subst this; decide
+
+/-- the value hypothesis `kv.2 ≠ []` is not needed for agreement under `hget` (an attribute with an empty value
+    reads as absent either way) but the name hypotheses are: a name with a colon is cut at it -/
+example : (match parseSection (writeSection [([97, 58, 98], [118])] []) with
+      | .ok h => some (hget h [97, 58, 98]) | _ => none) = some [] ∧
+    hget [([97, 58, 98], [118])] [97, 58, 98] = [118] := by decide
 
 end Relic.Props.C05
